@@ -151,6 +151,50 @@ def selftest_form(ctx, trace):
     return len(muts) - 1
 
 
+def selftest_reuse(ctx, obs, tier):
+    """corrupt an accepted used-receiver scenario: a leaf of the reused view that comes from neither document
+    (law Reuse), a leaf that the second document sets and the reused view lost (Reuse), a recorded panic (NoFailure)"""
+    base = None
+    with open(obs) as f:
+        for l in f:
+            if '"ty": "reuse"' not in l and '"ty":"reuse"' not in l:
+                continue
+            o = json.loads(l)
+            views = {d["p"]: d for d in o["dec"]}
+            if len(views) == 8 and all(d["err"] == "" and d["val"].get("outcome") == "value" for d in o["dec"]):
+                lv = {w: views["bytes/" + w]["val"]["leaves"] for w in ("zero", "fresh1", "fresh2", "reused")}
+                k = [k for k in sorted(lv["reused"]) if lv["fresh2"][k] != lv["zero"][k] and lv["fresh2"][k] != lv["fresh1"][k]
+                     and lv["reused"][k] == lv["fresh2"][k] and isinstance(lv["reused"][k][0], str)]
+                if k:
+                    base, leaf = o, k[0]
+                    break
+    if base is None:
+        raise verif.Undecided("used-receiver self-test: no clean scenario to corrupt")
+    muts = [("unchanged", json.loads(json.dumps(base)))]
+
+    def mut(name, f):
+        m = json.loads(json.dumps(base))
+        f({d["p"]: d for d in m["dec"]})
+        muts.append((name, m))
+    mut("foreign leaf", lambda v: v["bytes/reused"]["val"]["leaves"].__setitem__(leaf, ["S_corrupt"]))
+    mut("lost leaf", lambda v: v["tokens/reused"]["val"]["leaves"].__setitem__(leaf, v["tokens/fresh1"]["val"]["leaves"][leaf]))
+    mut("panic recorded", lambda v: v["bytes/reused"].__setitem__("err", "panic: injected"))
+    po, pt = ctx.path("selfreuse.ndjson"), ctx.path("selfreuse.tls.ndjson")
+    with open(po, "w") as f:
+        for _, m in muts:
+            f.write(json.dumps(m) + "\n")
+    with open(pt, "w") as f:
+        f.write(json.dumps({"ev": "tl", "id": 1, "toks": [{"k": "s", "n": "x", "a": []}, {"k": "e", "n": "x", "a": []}]}) + "\n")
+    rej, _, _ = cc.validate(ctx, po, pt, tier=tier, name="TrCodecSelfReuse", timeout=300)
+    if 1 in rej:
+        raise verif.Undecided("used-receiver self-test: the unchanged scenario was rejected: %s" % rej[1])
+    expect = {2: "Reuse", 3: "Reuse", 4: "NoFailure"}
+    missed = [muts[k - 1][0] for k, law in expect.items() if law not in rej.get(k, [])]
+    if missed:
+        raise verif.Undecided("used-receiver self-test: corrupted scenarios ACCEPTED: %s (rejections %s)" % (missed, rej))
+    return len(expect)
+
+
 def discount_known(ctx, obs, tls, rej, tier):
     """Open known findings of the codec family: a rejected observation that matches an entry's predicate is
     re-validated by TLC with exactly the entry's named deviation switched on; if it is then accepted it is
@@ -191,7 +235,7 @@ def run(ctx):
     quick = ctx.tier == "quick"
     mcf = ctx.model_check("MCForm", MCFORM_CFG % dict(maxops=2 if quick else 3), FORM_PROPS, workers=6 if quick else 12,
                           timeout=1500)
-    mcc = ctx.model_check("MCCodec", MCCODEC_CFG, ["C13_AutomatonExact", "C13_AutomatonAgreesWithFunction"], workers=4,
+    mcc = ctx.model_check("MCCodec", MCCODEC_CFG, ["C13_AutomatonExact", "C13_AutomatonAgreesWithFunction", "C19_TimeNamesSound", "C19_ReuseLawSane"], workers=4,
                           timeout=600)
     formcfg = emit_form(ctx)
     tier = ctx.tier
@@ -223,7 +267,7 @@ def run(ctx):
     known = discount_known(ctx, obs, tls, rej, tier)
     rej_left = {i: l for i, l in rej.items() if i not in known}
     nviol = cc.report(ctx, sym, obs, tls, rej_left, rtl, "C19", limit=30)
-    nself = cc.selftest_binding(ctx, obs, tls, tier=tier) if not ctx.replay else 0
+    nself = (cc.selftest_binding(ctx, obs, tls, tier=tier) + selftest_reuse(ctx, obs, tier)) if not ctx.replay else 0
     # ---- data form life cycle
     fsumm, frej, fr, nfself, nfviol = {"traces": 0, "events": 0, "distinct": 0, "samples": [], "extra": {}}, {}, None, 0, 0
     if form_scen is not None:
@@ -236,15 +280,16 @@ def run(ctx):
             ok = [t for t in range(1, fsumm["traces"] + 1) if t not in frej]
             if ok:
                 nfself = selftest_form(ctx, ftrace) if len(ok) > 10 else 0
-    covered = sorted(t for t in counts if t != "shape")
+    covered = sorted(t for t in counts if t not in ("shape", "reuse"))
     if ctx.replay:
         return          # a replay re-runs one stored case; the evidence file of the last full run is kept
     ctx.write_evidence("model_checking", {
         "states": mcf.distinct + mcc.distinct, "transitions": mcf.generated + mcc.generated,
         "design_check_form_states": mcf.distinct, "design_check_automaton_states": mcc.distinct,
         "traces_validated_against_impl": r.checked_obs + fsumm["traces"],
-        "evaluations": r.checked_obs, "values_per_type": {t: n for t, n in counts.items() if t != "shape"},
+        "evaluations": r.checked_obs, "values_per_type": {t: n for t, n in counts.items() if t not in ("shape", "reuse")},
         "shaped_documents_decoded": counts.get("shape", 0),
+        "reused_receiver_scenarios": counts.get("reuse", 0),
         "distinct_nontrivial": r.checked_tls, "token_lists_walked_by_automaton": r.checked_tls,
         "trace_states": r.distinct + (fr.distinct if fr else 0),
         "form_traces": fsumm["traces"], "form_events": fsumm["events"], "form_distinct_traces": fsumm["distinct"],
@@ -256,10 +301,13 @@ def run(ctx):
         "types_covered": covered, "types_uncovered": UNCOVERED,
         "exhaustive": False,
         "rule": "per type: the full product of the field domains of Codec.tla if < 5000 values, else every pair of (field, value) choices with the other fields at their base value; "
-                "shapes: 22 productions x 3 positions x 2 base values per decodable type; forms: every single operation and every Set followed by get/submit/encode resp. unmarshal/get/set/submit, on the constructed form AND on the form decoded (token stream / bytes) from a document of each of the 6 types of Form.tla (form, result, submit, cancel, no type attribute, unknown type); every pair (decode a document of type ty, operation); plus seeded random sequences of 5 operations (incl. the 12 decode operations) on 4 configurations (one without fields); "
+                "times: 3 instants (before 1970, sub-second part at the end of a year, leap day) x 10 zone offset classes (UTC, +01:00, -08:00, +05:30, -03:30, +05:45, -02:45, -00:30, +14:00, -12:00) + T_zero, T_east, T_west in every type that carries a time; "
+                "shapes: 22 productions x 3 positions x 2 base values per decodable type; "
+                "used receivers: per decodable type every pair of values that differ in one field (fields of at most 6 values: the whole domain on both sides) and every single-field variation before / after the two base values, decoded one after the other into the same variable, from bytes and from tokens; forms: every single operation and every Set followed by get/submit/encode resp. unmarshal/get/set/submit, on the constructed form AND on the form decoded (token stream / bytes) from a document of each of the 6 types of Form.tla (form, result, submit, cancel, no type attribute, unknown type); every pair (decode a document of type ty, operation); plus seeded random sequences of 5 operations (incl. the 12 decode operations) on 4 configurations (one without fields); "
                 "distinct_nontrivial = distinct abstract token lists",
         "laws": ["InDomain", "Complete", "NoFailure (no error/panic on own output; shaped documents: value or error, no panic)",
                  "WellFormed (stack automaton, no duplicate attributes)", "PathsAgree", "RoundTrip (Expect per type, normal forms stated in Codec.tla)",
+                 "Reuse (decoding into a receiver that already holds a decoded value: no panic; every leaf is what the document gives, what the receiver held if the document does not mention it, or an accumulation of both)",
                  "Form.tla: Set iff type fits, Get after Set, Raw stable, Submit ok iff required fields valued, submitted fields and values, submission has type submit, "
                  "the form's own encoding carries its type; all of them also on decoded forms of every type; no operation panics"],
         "samples": (summ["samples"][:1] + fsumm["samples"][:1]),
